@@ -125,12 +125,19 @@ def plan(seed, tier="quick", index=0):
     stratum = rng.choice(["random-tape", "boundary-draws", "crafted", "crafted", "repeats", "mixed", "concurrent", "entropy-fault"])
     if stratum == "concurrent":
         return _plan_concurrent(seed, rng, signers, msgs)
+    long_run = rng.random() < 0.006
+    if long_run:
+        # one signer, hundreds of signatures: counters, reseed thresholds and wrap-arounds that
+        # short histories never reach (library verification is skipped for these to keep it affordable)
+        stratum, nops, nsign, signers = "long", rng.choice([130, 260, 300]), 1, signers[:1]
     ops = []
     for i in range(nops):
         signer = rng.randrange(nsign)
         d = int(signers[signer], 16)
         kind = stratum if stratum != "mixed" else rng.choice(["random-tape", "boundary-draws", "crafted", "repeats"])
         mode = rng.choice(["sig", "sig", "sig", "sig-pre", "sig-pre-noflag", "raw", "raw"])
+        if long_run:
+            mode = "raw"
         op = {"signer": signer, "mode": mode, "flag": rng.choice(FLAGS), "tape": [], "craft": None}
         op["msg"] = rng.choice(msgs) if rng.random() < 0.5 else rng.getrandbits(256).to_bytes(32, "big").hex()
         if mode == "raw":
@@ -490,6 +497,9 @@ def execute(scenario, tape=None, keep_events=False):
                 else:
                     probes.hit("openssl-accepts")
             # -- the library's own verifiers
+            if sc["stratum"] == "long" and i % 40:
+                records.append((i, op["signer"], z, r, drawn[-1] if drawn else None, len(drawn)))
+                continue
             try:
                 if mode == "raw":
                     ok = ecmath.verify(r, s, P, z_in)
